@@ -63,7 +63,11 @@ def _is_context_sensitive(default: "CallableColumnDefault"):
     except AttributeError:
         return True
 
-    parameters = inspect.signature(wrapped_callable).parameters
+    try:
+        parameters = inspect.signature(wrapped_callable).parameters
+    except (ValueError, TypeError):
+        # builtin types like ``dict`` or ``str`` have no signature, sqlalchemy calls them without arguments
+        return False
     return len(parameters) > 0
 
 
